@@ -26,7 +26,7 @@ DEFAULT_FEATURES = {
     "refined": 4, "cls": 6, "list": 2, "annlist": 3, "tuple": 0, "union": 1, "dependent": 0, "flaky": 0,
     "weights": 0, "nested": 1, "standalone": 1, "unreachable": 1, "plain": 1, "infeasible": 0,
     "max_abstract": 3, "max_classes": 9, "max_fields": 3, "future_annotations": 0, "concrete_start": 0,
-    "base_in_list": 1, "finite": 0, "nested_generic": 0, "nested_list": 0, "deep_chain": 0, "self_ref": 0, "multi_dependent": 0, "abstract_weights": 0, "nested_start": 0, "hollow": 0, "barren": 0,
+    "base_in_list": 1, "finite": 0, "nested_generic": 0, "nested_list": 0, "deep_chain": 0, "self_ref": 0, "multi_dependent": 0, "abstract_weights": 0, "nested_start": 0, "hollow": 0, "barren": 0, "falsy": 0,
 }
 
 
@@ -291,6 +291,10 @@ def gen_spec(H: Chooser, feat=None) -> dict:
         # registered through the considered list only, not reachable from the start, and without a finite derivation
         classes.append({"name": "B0", "kind": "abc", "parent": None, "weight": None, "fields": []})
         classes.append({"name": "B1", "kind": "data", "parent": "B0", "weight": weight(), "fields": [["f0", ["cls", "B0"]]]})
+    if feat.get("falsy"):
+        for c in classes:
+            if c["kind"] in ("data", "plain") and H.draw(4) == 0:
+                c["falsy"] = True
     # precondition of weight normalisation: not every production of a type has weight zero
     for a in abstracts:
         kids = [c for c in classes if c["parent"] == a]
@@ -443,6 +447,9 @@ def render_source(spec) -> str:
                 args = "".join(f", {fn}: {tt}" for fn, tt in ftxt)
                 lines.append(f"    def __init__(self{args}):")
                 lines += [f"        self.{fn} = {fn}" for fn, _ in ftxt] or ["        pass"]
+            if c.get("falsy"):
+                # a legal node class whose instances can be falsy (container-like AST nodes define __len__ / __bool__)
+                lines += ["", "    def __bool__(self):", f"        return bool(self.{c['fields'][0][0]})" if c["fields"] else "        return False"]
         body.append("\n".join(lines))
     out.extend(deps)
     out.extend(body)
